@@ -73,6 +73,12 @@ def universe():
     class FC(F):
         pass
 
+    import abc
+
+    class V(abc.ABC):   # A is registered as a VIRTUAL subclass: not a subclass for the queries
+        pass
+    V.register(A)
+
     class P1(desper.Processor):
         priority = 0
 
@@ -98,7 +104,12 @@ def universe():
 
         def process(self, dt):
             log.append(('proc', id(self), dt))
-    return dict(A=A, B=B, C=C, D=D, H=H, G=G, HB=HB, Z=Z, F=F, FB=FB, FC=FC, P1=P1, P2=P2, P3=P3, PH=PH), log
+    return dict(A=A, B=B, C=C, D=D, H=H, G=G, HB=HB, Z=Z, F=F, FB=FB, FC=FC, V=V, P1=P1, P2=P2, P3=P3, PH=PH), log
+
+
+def real_sub(t, T):
+    """t is T or a direct or indirect subclass of T (inheritance, not ABC registration)."""
+    return T in t.__mro__
 
 
 class Model:
@@ -143,7 +154,7 @@ class Model:
     def match(self, e, T):
         if (e, T) in self.att:
             return T
-        ms = [t for (e2, t) in self.att if e2 == e and issubclass(t, T)]
+        ms = [t for (e2, t) in self.att if e2 == e and real_sub(t, T)]
         return ms
 
     def enable(self, v):
@@ -377,11 +388,15 @@ def run_history(history, budget_s=10):
 
 def compare(w, m, K, log):
     """Every query against the model (C01, C06), registration (C02), callbacks (C02)."""
-    types = [K[n] for n in ('A', 'B', 'C', 'D', 'H', 'G', 'HB', 'Z', 'F', 'FB', 'FC')]
+    # `object` is the root of every hierarchy: a query by it means "every component"
+    types = [K[n] for n in ('A', 'B', 'C', 'D', 'H', 'G', 'HB', 'Z', 'F', 'FB', 'FC', 'V')] + [object]
     ents = sorted({e for (e, t) in m.att}, key=repr)
     for T in types:
-        got = w.get(T)
-        exp = [(e, c) for (e, t), c in m.att.items() if issubclass(t, T)]
+        try:
+            got = w.get(T)
+        except TypeError as ex:
+            return ('C06', 'get(%s) raised %r' % (T.__name__, ex), 'query-by-object')
+        exp = [(e, c) for (e, t), c in m.att.items() if real_sub(t, T)]
         if sorted(map(lambda p: (repr(p[0]), id(p[1])), got)) != sorted(map(lambda p: (repr(p[0]), id(p[1])), exp)):
             dup = len(got) != len(set((repr(a), id(b)) for a, b in got))
             return ('C06' if dup else 'C01', 'get(%s) lists %d pairs, %d components of that type or a subtype are attached%s'
@@ -391,7 +406,7 @@ def compare(w, m, K, log):
         if sorted(map(id, w.get_components(e))) != sorted(map(id, row.values())):
             return ('C01', 'get_components(%r) disagrees with the attached components' % (e,), 'get_components')
         for T in types:
-            has = any(issubclass(t, T) for t in row)
+            has = any(real_sub(t, T) for t in row)
             if w.has_component(e, T) != has:
                 return ('C01', 'has_component(%r, %s) is %r' % (e, T.__name__, not has), 'has_component')
             gc = w.get_component(e, T)
@@ -457,6 +472,8 @@ def families(pid, tier):
              ('add', 2, 'H#3'), ('add', 1, 'D#4'), ('remove', 1, 'B'), ('remove', 1, 'C')]
     procs = [('addproc', 'P1', None), ('addproc', 'P2', None), ('addproc', 'P3', None),
              ('addproc', 'P1#2', 0), ('addproc', 'P2', -1), ('addproc', 'PH', 1), ('addproc', 'P2#2', 0),
+             # the same instance again with another explicit priority (the class default included)
+             ('addproc', 'P2', 0), ('addproc', 'P1', 3), ('addproc', 'P1', 0),
              ('rmproc', 'P1'), ('rmproc', 'P2'), ('process', 2), ('clear',), ('disable',), ('enable',)]
     if pid == 'C07':
         for k in range(1, n + 2):
